@@ -219,7 +219,7 @@ def entry_name(t) -> str:
 
 def build_points(tier: str, rng: random.Random) -> list[dict]:
     pts = []
-    for ev in ps.gen_events(3000 if tier == "thorough" else 800, rng):
+    for ev in ps.gen_events(3000 if tier == "thorough" else 600, rng):
         M, S = ps.invariants(ev)
         pts.append({"M": list(M), "S": list(S), "P": [list(p) for p in ev], "tag": "event"})
     configs = LATTICE_QUICK if tier == "quick" else sorted(set(LATTICE_QUICK) | set(rng.sample(ps.mass_configs(7), 40)))
@@ -228,7 +228,7 @@ def build_points(tier: str, rng: random.Random) -> list[dict]:
         cand = ps.dalitz_points(m)
         special = [c for c in cand if c[2] != "interior"]
         interior = [c for c in cand if c[2] == "interior"]
-        cap = 120 if tier == "thorough" else 60
+        cap = 120 if tier == "thorough" else 40
         chosen = special[: 2 * cap] if len(special) <= 2 * cap else rng.sample(special, 2 * cap)
         chosen += interior if len(interior) <= cap else rng.sample(interior, cap)
         for s1, s2, tag in chosen:
@@ -354,12 +354,13 @@ def run(chk, replay=None):
         "an arccos argument whose denominator vanishes (threshold, particle at rest) has no value: such formulas are skipped at that point",
         "the observation family quantises angles to 1e-7 rad and tolerates 2e-6 rad",
     )
-    # 1. the reference on its own lattice --------------------------------------------------------
+    # 1. the reference on its own lattice (runs while the implementation is projected and evaluated) ---
+    from concurrent.futures import ThreadPoolExecutor
+
+    mc_pool = ThreadPoolExecutor(max_workers=1)
+    mc_future = None
     if not replay:
-        res = tlc.run("PhaseSpace3_MC", MC_CFG.format(maxm0=7 if tier == "thorough" else 5), workers=6, fast_start=False, timeout=1500)
-        chk.add_tlc("reference_exhaustive", res)
-        if not res.ok:
-            raise Machinery(f"the reference PhaseSpace3 violates its own law {res.violated}: specification error\n" + "\n".join(res.error_trace[:40]))
+        mc_future = mc_pool.submit(tlc.run, "PhaseSpace3_MC", MC_CFG.format(maxm0=7 if tier == "thorough" else 5), workers=6, fast_start=False, timeout=1500)
 
     # 2. the implementation ---------------------------------------------------------------------------
     impl = Impl()
@@ -392,6 +393,7 @@ def run(chk, replay=None):
         s = next((r for r, p in zip(records[1:], pts) if p["tag"] == tag), None)
         if s:
             chk.sample({"tag": tag, **{k: v for k, v in s.items() if k != "k"}})
+
 
     # 3. TLC judges the exact family -----------------------------------------------------------------
     rejects = []
@@ -477,6 +479,12 @@ def run(chk, replay=None):
     for clause, (rid, info) in drifts.items():
         chk.spec_drift(f"{clause}: implementation-shaped part of the specification not followed (first at record {rid}: {info}); the angle laws hold on the observation family")
 
+    if mc_future is not None:
+        res = mc_future.result()
+        chk.add_tlc("reference_exhaustive", res)
+        if not res.ok:
+            raise Machinery(f"the reference PhaseSpace3 violates its own law {res.violated}: specification error\n" + "\n".join(res.error_trace[:40]))
+    mc_pool.shutdown()
     chk.part("trace_stats", formulas=len(impl.args), **stats)
     if not replay and not chk.violations and not chk.drift:
         need = ["pt_event", "pt_lattice", "pt_boundary", "pt_adjacent", "pt_massless", "pt_equalmass", "sumrule_instances", "arg_checked", "hat_geom", "scat_geom", "obs"]
